@@ -77,8 +77,24 @@ def budget_over_positions(rng):
     return dict(sequence="".join(seq), constraints=cons, objectives=[], settings=problems.rand_settings(rng), np_seed=rng.randint(0, 10 ** 6))
 
 
+def long_dense_lying_case(rng):
+    """a long sequence with a hundred breaches of a user specification whose resolution heuristic claims success and
+    changes nothing: the final check fails with a very long evaluation message (still a NoSolutionError)"""
+    n = rng.randint(240, 320)
+    seq = "".join(rng.choice("AAAT" if rng.random() < 0.8 else "GC") for _ in range(n))
+    # (an imperfect localization: the localized copy is shrunk and sees nothing, so nothing is ever edited)
+    cons = [dict(kind="user", motif="AA", shrink=rng.choice([2, 2, 3]), location=None, heuristic=rng.choice([None, None, "lying"]),
+                 localized_none=False, priority=0, no_rh=False)]
+    if rng.random() < 0.5:
+        cons.append(dict(kind="pattern", pattern=rng.choice(["GGTCTC", "CGTCTC"]), location=None))
+    return dict(sequence=seq, constraints=cons, objectives=[], settings=problems.rand_settings(rng), np_seed=rng.randint(0, 10 ** 6))
+
+
 def gen_cases(rng, n):
     for i in range(n):
+        if i % 12 == 9:
+            yield dict(desc=long_dense_lying_case(rng), op="resolve")
+            continue
         if i % 12 == 3:
             yield dict(desc=budget_over_positions(rng), op="resolve")
             continue
